@@ -371,7 +371,10 @@ Write(t) ==
        IN /\ o.ok
           /\ wd' = o.wd /\ src' = o.src
           /\ wtop' = (IF wdlink THEN "link" ELSE Top(wd, p[1]).k)
-          /\ own' = IF o.fresh THEN own \cup {IF t = "p/l" THEN <<"p", "a">> ELSE p} ELSE own
+          \* a file the task made itself under a name no reference stages (a file it makes under a staged name is fair game for a restage)
+          /\ own' = LET q == IF t = "p/l" THEN <<"p", "a">> ELSE p
+                         names == UNION {StagedNames(refs[i]) : i \in 1..Len(refs)}
+                     IN IF o.fresh /\ ~(q[1] \in names /\ (Len(q) = 1 \/ q[Len(q)] # "o")) THEN own \cup {q} ELSE own
     /\ tick' = tick + 1 /\ nwr' = nwr + 1 /\ nev' = nev + 1 /\ clean' = FALSE /\ bsame' = FALSE
     /\ hist' = Append(hist, Lab("write", t, "", 0))
     /\ UNCHANGED <<refs, rep, mig, isrc, wdlink, inputs, pc, plan, idx, miss, res, staged, launch, nmut, nrs, nag, restarted, gok, bwd, dev>>
